@@ -44,6 +44,21 @@ CLAIMS = {
  'C20': dict(ref='7/C20', partial=None,
    text='Theorems C20_left, C20_right, C20_canonical_passes: the stride walk aborts exactly when the stride list differs from the canonical strides of the target layout, for every rank; canonical strides never abort. Tied by running each conversion in a child process of an assertion-enabled build and of an NDEBUG build (24 index-type pairs x rank 0-4; canonical, one-off, permuted, other-layout stride tuples) and comparing the exit status with the machine-layer walk (walkLeftM/walkRightM, comparison in the common type) and with the statement.',
    tech='Lean 4 proof + child-process correspondence (SIGABRT observed)', note='CUDA/HIP configurations do not exist here.'),
+ 'C08': dict(ref='7/C08', partial=None,
+   text='Theorems C08_conv_extents, C08_conv_offset (for ALL index lists of the right length), C08_conv_strides, C08_eq_sound, C08_eq_refl, C08_roundtrip (every pair of kinds, every rank; the return conversion\'s precondition is proved, not assumed), C08_ne_not_eq (all 25 pairs), C08_left/right_eq_iff about a pure mirror of every converting constructor and operator==/!= (incl. _eq_impl/_not_eq_impl and the generic strided comparison). Tied by converting between 9 layouts x 6 index-type pairs x rank 0-3 on the real headers wherever the Lean predicate ConvPre holds and comparing extents, strides and every offset of source and target with the model; == / != for every pair with a direct operator==.',
+   tech='Lean 4 proof + exact-transcript correspondence of conversions and comparisons',
+   note='The conversion family uses all-dynamic extents; conversions involving static extents / static padded strides are covered at the type level only (convertS, ctorMandate in Convert.lean; the inverted Mandates check found there was fixed: see known_findings.json).'),
+ 'C03': dict(ref='7/C03', partial='references are modelled as addresses (offset from the buffer base); C++ aliasing/lifetime rules are outside the model. Proxy-reference accessors and non-pointer data handles are not instantiated.',
+   text='Every access spelling reduces to accessor.access(data_handle, mapping(static_cast<index_type>(idx)...)) in the view model (MdsView/CView, C11_make_abs) and by C01_range the designated address lies in [data_handle, data_handle + required_span_size). Tied by op sequences on mdspan<int, E, L, A> (7 layouts x 4 index types x 9 patterns x {default, logging stateful accessor}): each multi-index is accessed as index pack, std::array, std::span and class-type indices with random integer argument types; the returned address, the accessor call log (exactly one access(handle, offset)) and a whole-buffer diff after one write are compared with the model and with the statement; bracket (C++23) and paren (C++20) spellings are both built.',
+   tech='Lean 4 proof of the view/storage refinement + C01 range theorem + transcript correspondence with a logging accessor',
+   note='Address = handle + offset is the model of data_handle()[i].'),
+ 'C11': dict(ref='7/C11', partial='object semantics are modelled as values (triples); an empty data-handle type (outer EN/EE pair) is not instantiated.',
+   text='Theorems C11_step / C11_run: for every sequence of construct / copy / move / assign / move-assign / swap operations on a pool, the views stored as __compressed_pair<handle, __compressed_pair<mapping, accessor>> (any of the 4 x 4 specialisation combinations, an empty component not being stored at all) read back exactly the triples supplied; C11_swap_spec, C11_assign_spec. Tied by random op sequences with an observation after every step on instantiations that reach inner pairs NN/NE/EN/EE and outer NN/NE, in a [[no_unique_address]] build and in a forced-emulation build (hook), element storage PROT_NONE for the whole sequence (any read or write of an element is a SIGSEGV) and a buffer diff at the end.',
+   tech='Lean 4 refinement proof over operation histories + transcript correspondence in attribute and emulation builds',
+   note='The emulation path is forced by the KOKKOS_MDSPAN_VERIF hook.'),
+ 'C13': dict(ref='7/C13', partial=None,
+   text='Theorems C13_size (size = product, any rank), C13_empty, C13_rank0 and the equality of the C++14 fold emulations with the fold expressions (foldTimesEmu_eq, foldOrEmu_eq, foldAndEmu_eq). Tied by observing size(), empty(), rank(), rank_dynamic(), extent(r), static_extent(r), stride(r) and the flag forwarders of mdspan after construction and after conversion, for zero extents in every position and extents whose product is at the top of the index type, against the machine-layer model (size folded in size_t and returned as size_type) and the statement.',
+   tech='Lean 4 proof + transcript correspondence', note='The C++14 configuration is exercised by C15 only.'),
 }
 NOT_YET = 'check not built yet (work in progress; DESIGN.md section 7 describes the planned proof and correspondence)'
 
